@@ -348,6 +348,7 @@ class C06(Check):
                 run_aux(scn["aux"])
                 ctx["aux_tid"] = max(t.tid for t in sim.threads)
                 ctx["aux_socks"] = list(w.net.sockets)
+                w.ignore_socks = set(ctx["aux_socks"])
             ctx["conn_target"] = 0
             starts_done = 0
             alive = start_connection(starts_done)
@@ -504,6 +505,10 @@ class C06(Check):
                          "H7/psm-thread-died/%s" % type(e).__name__, {"exc": "%s: %s" % (type(e).__name__, str(e)[:200])})
 
         sim.run_main(main)
+        for iv in w.invariant_violations[:1]:
+            # seen by the observer that runs at every context switch: the reported state was Closed (after having
+            # been something else) while a socket of the node was still open or registered
+            viol("Closed implies the transport has been released", "H8/closed-visible-before-release", iv)
         sigs = set()
         uniq = []
         for v in violations:
